@@ -140,6 +140,7 @@ func Build(spec Spec) *Built {
 	base.Shuffle(r, queue)
 	ncur := r.Intn(len(nest))
 
+	var aliasDecls []*Type
 	for di, d := range bt.DPkgs {
 		tfn := "types.go"
 		if spec.Twin {
@@ -148,6 +149,15 @@ func Build(spec Spec) *Built {
 		ftypes := b.NewFile(d, tfn)
 		fapi := b.NewFile(d, "api.go")
 		fuse := b.NewFile(d, "uses.go")
+		if spec.Hostile {
+			// an alias declaration that carries its own @packageonly list (its target is an unannotated type)
+			fapi.Decls = append(fapi.Decls, &Node{Pre: []*Line{b.line("type PlainBase struct{ N int }")}})
+			at := &Type{Pkg: d, Name: "LegacyPlain", Kind: "struct", PkgOnly: b.randAllow(r, allowPool), File: fapi}
+			an := &Node{TypeDecl: at, Doc: append([]string{" LegacyPlain is generated."}, allowDoc(at.PkgOnly)...)}
+			an.Pre = []*Line{b.line("type LegacyPlain = PlainBase")}
+			fapi.Decls = append(fapi.Decls, an)
+			aliasDecls = append(aliasDecls, at)
+		}
 		var fmeth *File
 		var fexcl, fdtest, fdext *File
 		if spec.Excluded {
@@ -249,6 +259,7 @@ func Build(spec Spec) *Built {
 			tf.Decls = append(tf.Decls, b.TypeDeclNode(t, tf))
 			if t.Kind == "struct" {
 				tf.Decls = append(tf.Decls, &Node{Pre: []*Line{b.line("type Inner" + t.Name + " struct{ Z int }")}})
+				tf.Decls = append(tf.Decls, &Node{Pre: []*Line{b.line("type Emb" + t.Name + " struct {")}, Kids: []*Node{b.stmt("EX int"), b.stmt("ES []int")}, Post: []*Line{b.line("}")}})
 			}
 			env := &Env{}
 			n, fn := b.CtorNode(t, "New"+t.Name, fapi)
@@ -554,7 +565,9 @@ func Build(spec Spec) *Built {
 		mkc := func(name string, codes []string, methods []string) {
 			t := &Type{Pkg: u0, Name: name, Kind: "struct", Impl: []string{"x"}, ImplCodes: codes, File: uf}
 			n := &Node{TypeDecl: t, Doc: []string{" " + name + " is generated.", " @implements " + q(d) + "Codec"}}
-			n.Pre = []*Line{b.line("type "+name+" struct{}", &Use{Kind: UImpl, T: t})}
+			// (the declaration itself uses the package in code, so that the import its annotation needs stays used
+			// wherever a layout variant moves the declaration)
+			n.Pre = []*Line{b.line("type "+name+" struct{ last "+q(d)+"Token }", &Use{Kind: UImpl, T: t})}
 			uf.Decls = append(uf.Decls, n)
 			for _, m := range methods {
 				uf.Decls = append(uf.Decls, &Node{Fn: &Func{Pkg: u0, Name: "m", File: uf}, Pre: []*Line{b.line("func (c " + name + ") " + m)}})
@@ -582,6 +595,22 @@ func Build(spec Spec) *Built {
 		fb := b.NewFile(u, "b.go")
 		files := []*File{fa, fb}
 		fnoimp := b.NewFile(u, "noimp.go")
+		for _, at := range aliasDecls {
+			// references to the annotated alias declaration: a variable, a parameter, a literal
+			v1 := b.tstmt("var "+b.d("leg")+" %T", refT(at, SubVar))
+			v1.PkgLevel = true
+			v1.Pre[0].Feature = "annotated-alias-declaration"
+			fn := &Node{Fn: &Func{Pkg: u, Name: b.d("useLegacy"), File: fb}}
+			pl := b.tl("func "+fn.Fn.Name+"(v1 *%T) {", refT(at, SubParam))
+			pl.Feature = "annotated-alias-declaration"
+			ll := b.tl("_ = %T{N: 1}", refT(at, SubLit))
+			ll.Feature = "annotated-alias-declaration"
+			fn.Pre = []*Line{pl}
+			fn.Kids = []*Node{{Pre: []*Line{ll}}}
+			fn.Post = []*Line{b.line("}")}
+			fa.Decls = append(fa.Decls, v1)
+			fb.Decls = append(fb.Decls, fn)
+		}
 		var ftest, fext, fex, ftex *File
 		if spec.Tests {
 			ftest = b.NewFile(u, "a_test.go")
@@ -988,6 +1017,7 @@ func Build(spec Spec) *Built {
 		zt := &Type{Pkg: z0, Name: "Cfg", Kind: "struct", Immutable: true, Ctors: []string{"NewCfg"}, Mutable: map[string]bool{"G": true}}
 		zf.Decls = append(zf.Decls, b.TypeDeclNode(zt, zf))
 		zf.Decls = append(zf.Decls, &Node{Pre: []*Line{b.line("type InnerCfg struct{ Z int }")}})
+		zf.Decls = append(zf.Decls, &Node{Pre: []*Line{b.line("type EmbCfg struct{ EX int; ES []int }")}})
 		n, fn := b.CtorNode(zt, "NewCfg", zf)
 		zf.Decls = append(zf.Decls, n)
 		zenv := &Env{New: fn}
